@@ -78,6 +78,7 @@ Print Assumptions C02_packed_score_site_shift.
 From Coquelicot Require Import Coquelicot.
 From PV Require Import proofs.LensFacts proofs.LensModel.
 From PV Require Import gen.GenFns model.Iter model.Pipeline proofs.ListLemmas proofs.SrcCell proofs.SrcShapes proofs.SrcState.
+From PV Require Import proofs.SourceHeadlines.
 Local Open Scope R_scope.
 
 Theorem C02_segment_integral :
@@ -232,4 +233,12 @@ Theorem C02_state_source_translated :
     translated_gen_lj_score = true /\ translated_gen_lj_final = true.
 Proof. exact state_source_translated. Qed.
 Print Assumptions C02_state_source_translated.
+
+
+Theorem C02_source_score_is_fraction :
+  forall (st : pstateR) (s : R), gen_packed_score NumR st = Some s -> s = p_area NumR st * INR
+    (length (p_sites NumR st) * length (p_syms NumR st)) / gen_cell_area NumR (p_cell NumR st)
+    /\ gen_check_intersection NumR st = false.
+Proof. exact source_score_is_fraction. Qed.
+Print Assumptions C02_source_score_is_fraction.
 
